@@ -37,55 +37,81 @@ def d1(ctx, lin):
 def d2_complex_product(ctx, lin):
     rule = 'C10-D2'
     f = lin.func('matmul')
-    inner = [nd for q, nd in lin.functions() if q.startswith('matmul.multi_dot') and nd.name == 'multi_dot'
+    cands = [nd for q, nd in lin.functions() if q.startswith('matmul.') and q.count('.') == 1
              and any(isinstance(s_, ast.For) and isinstance(s_.target, ast.Tuple) for s_ in nd.body)]
+    inner = [nd for nd in cands if nd.name == 'multi_dot']
+    own_loop = {nd.name: nd for nd in cands if nd.name in ('multi_dot_r', 'multi_dot_i')}
+    if len(inner) != 1 and len(own_loop) != 2:
+        ctx.unrec(rule, 'linalg.py:matmul.multi_dot#complex', 'complex product (a nested function with the loop over (re, im) operand pairs) not found')
+        return
+
+    def product_checks(md):
+        ops, part = md.args.args[0].arg, (md.args.args[1].arg if len(md.args.args) > 1 else None)
+        loops = [s for s in md.body if isinstance(s, ast.For)]
+        if len(loops) != 1 or not isinstance(loops[0].target, ast.Tuple):
+            ctx.unrec(rule, 'linalg.py:matmul.multi_dot#complex', 'loop over operand pairs not found')
+            return None
+        lp = loops[0]
+        o_r, o_i = [unparse(e) for e in lp.target.elts]
+        it = unparse(lp.iter)
+        ctx.check(rule, 'linalg.py:matmul.multi_dot#operand-layout', it == 'zip(%s[2::2], %s[3::2])' % (ops, ops), 'operands are consumed as (re, im) pairs: even positions real, odd positions imaginary',
+                  'pairs are taken from %s' % it, lin.loc(lp))
+        init = {unparse(s.targets[0]): unparse(s.value) for s in md.body if isinstance(s, ast.Assign)}
+        names = list(init)
+        okinit = len(names) >= 2 and init[names[0]] == '%s[0]' % ops and init[names[1]] == '%s[1]' % ops
+        sr, si = names[0], names[1]
+        ctx.check(rule, 'linalg.py:matmul.multi_dot#start', okinit, 'running product starts with (operands[0], operands[1]) = (re, im)', 'initialisation %s' % init, lin.loc(md) if md is not None else None)
+        mx = MatX(lin, None, inline=False)
+        asg = {unparse(s.targets[0]): s for s in lp.body if isinstance(s, ast.Assign)}
+        # tmp_r, tmp_i then stack_r = tmp_r ...
+        upd = {}
+        for tgt, s in asg.items():
+            upd[tgt] = s.value
+        # resolve: stack_r := value of the temp it is assigned from
+        def resolved(nm):
+            v = upd.get(nm)
+            if isinstance(v, ast.Name) and v.id in upd:
+                return upd[v.id]
+            return v
+        vr, vi = resolved(sr), resolved(si)
+        if vr is None or vi is None:
+            ctx.unrec(rule, 'linalg.py:matmul.multi_dot#formula', 'updates of the running product not found')
+            return None
+        R, I, Or, Oi = S(sr), S(si), S(o_r), S(o_i)
+        want_r = ('sub', ('matmul', R, Or), ('matmul', I, Oi))
+        want_i = ('add',) + tuple(sorted([('matmul', R, Oi), ('matmul', I, Or)], key=repr))
+        gr, gi = mx.t(vr), mx.t(vi)
+        ctx.check(rule, 'linalg.py:matmul.multi_dot#real-part', gr == want_r, 'Re = R R\' - I I\' (factor order kept)', 'real part is %s' % show(gr), lin.loc(lp))
+        ctx.check(rule, 'linalg.py:matmul.multi_dot#imag-part', gi == want_i, 'Im = R I\' + I R\' (factor order kept)', 'imaginary part is %s' % show(gi), lin.loc(lp))
+        # both updates use the OLD values: temporaries assigned before the running product is overwritten
+        order = [unparse(s.targets[0]) for s in lp.body if isinstance(s, ast.Assign)]
+        ok_tmp = order.index(sr) > max(i for i, t in enumerate(order) if t not in (sr, si)) if any(t not in (sr, si) for t in order) else False
+        ctx.check(rule, 'linalg.py:matmul.multi_dot#simultaneous-update', ok_tmp, 'both parts are computed from the previous product before either is overwritten', 'assignment order %s' % order, lin.loc(lp))
+        return sr, si
     if len(inner) != 1:
-        ctx.unrec(rule, 'linalg.py:matmul.multi_dot#complex', 'complex multi_dot(operands, part) not found')
-        return
-    md = inner[0]
-    ops, part = md.args.args[0].arg, (md.args.args[1].arg if len(md.args.args) > 1 else None)
-    loops = [s for s in md.body if isinstance(s, ast.For)]
-    if len(loops) != 1 or not isinstance(loops[0].target, ast.Tuple):
-        ctx.unrec(rule, 'linalg.py:matmul.multi_dot#complex', 'loop over operand pairs not found')
-        return
-    lp = loops[0]
-    o_r, o_i = [unparse(e) for e in lp.target.elts]
-    it = unparse(lp.iter)
-    ctx.check(rule, 'linalg.py:matmul.multi_dot#operand-layout', it == 'zip(%s[2::2], %s[3::2])' % (ops, ops), 'operands are consumed as (re, im) pairs: even positions real, odd positions imaginary',
-              'pairs are taken from %s' % it, lin.loc(lp))
-    init = {unparse(s.targets[0]): unparse(s.value) for s in md.body if isinstance(s, ast.Assign)}
-    names = list(init)
-    okinit = len(names) >= 2 and init[names[0]] == '%s[0]' % ops and init[names[1]] == '%s[1]' % ops
-    sr, si = names[0], names[1]
-    ctx.check(rule, 'linalg.py:matmul.multi_dot#start', okinit, 'running product starts with (operands[0], operands[1]) = (re, im)', 'initialisation %s' % init, lin.loc(md))
-    mx = MatX(lin, None, inline=False)
-    asg = {unparse(s.targets[0]): s for s in lp.body if isinstance(s, ast.Assign)}
-    # tmp_r, tmp_i then stack_r = tmp_r ...
-    upd = {}
-    for tgt, s in asg.items():
-        upd[tgt] = s.value
-    # resolve: stack_r := value of the temp it is assigned from
-    def resolved(nm):
-        v = upd.get(nm)
-        if isinstance(v, ast.Name) and v.id in upd:
-            return upd[v.id]
-        return v
-    vr, vi = resolved(sr), resolved(si)
-    if vr is None or vi is None:
-        ctx.unrec(rule, 'linalg.py:matmul.multi_dot#formula', 'updates of the running product not found')
-        return
-    R, I, Or, Oi = S(sr), S(si), S(o_r), S(o_i)
-    want_r = ('sub', ('matmul', R, Or), ('matmul', I, Oi))
-    want_i = ('add',) + tuple(sorted([('matmul', R, Oi), ('matmul', I, Or)], key=repr))
-    gr, gi = mx.t(vr), mx.t(vi)
-    ctx.check(rule, 'linalg.py:matmul.multi_dot#real-part', gr == want_r, 'Re = R R\' - I I\' (factor order kept)', 'real part is %s' % show(gr), lin.loc(lp))
-    ctx.check(rule, 'linalg.py:matmul.multi_dot#imag-part', gi == want_i, 'Im = R I\' + I R\' (factor order kept)', 'imaginary part is %s' % show(gi), lin.loc(lp))
-    # both updates use the OLD values: temporaries assigned before the running product is overwritten
-    order = [unparse(s.targets[0]) for s in lp.body if isinstance(s, ast.Assign)]
-    ok_tmp = order.index(sr) > max(i for i, t in enumerate(order) if t not in (sr, si)) if any(t not in (sr, si) for t in order) else False
-    ctx.check(rule, 'linalg.py:matmul.multi_dot#simultaneous-update', ok_tmp, 'both parts are computed from the previous product before either is overwritten', 'assignment order %s' % order, lin.loc(lp))
+        # no shared function: each wrapper carries the complex product itself (e.g. after a tuple-returning helper was inlined)
+        for nm_, want_idx in (('multi_dot_r', 0), ('multi_dot_i', 1)):
+            w_ = own_loop[nm_]
+            res = product_checks(w_)
+            if res is None:
+                continue
+            rr = [s_ for s_ in statements(w_) if isinstance(s_, ast.Return)]
+            v_ = rr[0].value if len(rr) == 1 else None
+            if isinstance(v_, ast.Subscript) and isinstance(v_.value, ast.Tuple) and isinstance(v_.slice, ast.Constant) and isinstance(v_.slice.value, int) and -len(v_.value.elts) <= v_.slice.value < len(v_.value.elts):
+                v_ = v_.value.elts[v_.slice.value]
+            ctx.check(rule, 'linalg.py:matmul.%s#part-selection' % nm_, v_ is not None and unparse(v_) == res[want_idx],
+                      'the wrapper returns the %s running product' % ('real', 'imaginary')[want_idx], 'returns %s, the %s part is %s' % (unparse(v_) if v_ is not None else None, ('real', 'imaginary')[want_idx], res[want_idx]), lin.loc(w_))
+        md = None
+        sr = si = None
+    else:
+        md = inner[0]
+        res = product_checks(md)
+        if res is None:
+            return
+        sr, si = res
+        part = md.args.args[1].arg if len(md.args.args) > 1 else None
     # part selection: what the two wrappers hand to derived_observable, resolved through multi_dot's returns
-    rets = [s for s in statements(md) if isinstance(s, ast.Return)]
+    rets = [s for s in statements(md) if isinstance(s, ast.Return)] if md is not None else []
     wr = {q.split('.')[-1]: nd for q, nd in lin.functions() if q in ('matmul.multi_dot_r', 'matmul.multi_dot_i')}
 
     def selected(wrapper):
@@ -120,9 +146,9 @@ def d2_complex_product(ctx, lin):
                 return None
             out = out.elts[idx]
         return unparse(out)
-    sel = {k_: selected(w_) for k_, w_ in wr.items()}
-    ok = sel.get('multi_dot_r') == sr and sel.get('multi_dot_i') == si
-    ctx.check(rule, 'linalg.py:matmul.multi_dot#part-selection', ok, "the wrapper for the real part returns the real running product, the one for the imaginary part the imaginary one", 'selection %s' % sel, lin.loc(md))
+    sel = {k_: selected(w_) for k_, w_ in wr.items()} if md is not None else {}
+    ok = md is None or (sel.get('multi_dot_r') == sr and sel.get('multi_dot_i') == si)
+    ctx.check(rule, 'linalg.py:matmul.multi_dot#part-selection', ok, "the wrapper for the real part returns the real running product, the one for the imaginary part the imaginary one", 'selection %s' % sel, lin.loc(md) if md is not None else None)
     ctx.check(rule, 'linalg.py:matmul#wrappers', len(wr) == 2, 'multi_dot_r / multi_dot_i wrappers', 'wrappers differ')
     nr, ni = find_def(f, 'Nr'), find_def(f, 'Ni')
     okn = len(nr) == 1 and len(ni) == 1 and unparse(nr[0].value).startswith('derived_observable(multi_dot_r, extended_operands') and unparse(ni[0].value).startswith('derived_observable(multi_dot_i, extended_operands')
